@@ -619,3 +619,64 @@ def minus_operand(v, is_base):
         if x[1].startswith("cosmwasm_std::Uint") or x[1] == "std::ops::Sub::sub":
             return x[2][1]
     return None
+
+
+# ------------------------------------------------------------------ string predicates as worlds (validators)
+
+
+def prefix_world(ctx, is_s, lit, has):
+    """world: the string accepted by is_s starts with the literal `lit` (has) or does not:
+    decides starts_with(s, lit) and strip_prefix(s, lit) (Some / None) wherever they are evaluated"""
+    sw = lambda t: t[0] == "call" and t[1].endswith("str::starts_with") and len(t[2]) == 2 and is_s(t[2][0]) and const_str(t[2][1]) == lit
+    sp = lambda t: t[0] == "call" and t[1].endswith("str::strip_prefix") and len(t[2]) == 2 and is_s(t[2][0]) and const_str(t[2][1]) == lit
+    return ctx.assume((sw, bool(has)), (sp, ("ok", bool(has))))
+
+
+def prefix_tests(prog, ctx, is_s, lit):
+    """number of places (body + local callees) where the prefix `lit` of s is examined"""
+    from engine.analysis import inline_walk
+    n = 0
+    for c, path in inline_walk(prog, ctx, 2):
+        for bi, atom in c.atoms():
+            for s_ in subterms(atom[1]):
+                if s_[0] == "call" and s_[1].split("::")[-1] in ("starts_with", "strip_prefix") and len(s_[2]) == 2 and is_s(s_[2][0]) and const_str(s_[2][1]) == lit:
+                    n += 1
+    return n
+
+
+def rest_after(is_s, lit):
+    """predicate: t = the remainder of s after the literal prefix: strip_prefix(s, lit) unwrapped"""
+    def f(t):
+        if t[0] != "payload":
+            return False
+        c = t[1][1] if t[1][0] == "trybranch" else t[1]
+        return c[0] == "call" and c[1].endswith("str::strip_prefix") and len(c[2]) == 2 and is_s(c[2][0]) and const_str(c[2][1]) == lit
+    return f
+
+
+def charclass_world(prog, ctx, is_s, class_method, all_in_class):
+    """world: every character / byte of s is in the class tested by `class_method`
+    (e.g. is_ascii_alphabetic) — or not.  Decides `s.chars().all(|c| c.is_x())`,
+    `s.bytes().any(|b| !b.is_x())` and their negations."""
+    def quant(t):
+        if t[0] != "call" or t[1].split("::")[-1] not in ("all", "any") or "Iterator" not in t[1] or len(t[2]) != 2:
+            return None
+        src, clo = t[2]
+        if not (src[0] == "call" and src[1].split("::")[-1] in ("chars", "bytes") and src[2] and is_s(src[2][0])):
+            return None
+        if clo[0] != "closure":
+            return None
+        res = closure_result(prog, clo, params={2: ("elem",)})
+        neg = False
+        while res is not None and res[0] == "un" and res[1] == "Not":
+            res, neg = res[2], not neg
+        if res is None or res[0] != "call" or not res[1].endswith(class_method) or res[2][0] != ("elem",):
+            return None
+        is_all = t[1].split("::")[-1] == "all"
+        if is_all and not neg:
+            return all_in_class          # all(in class)
+        if not is_all and neg:
+            return not all_in_class      # any(not in class)
+        return None                        # all(not in class) / any(in class): a different statement
+
+    return ctx.assume((None, quant)), quant
